@@ -65,6 +65,14 @@ Theorem C12_body_at_most_once_refuted :
 Proof. exact body_at_most_once_refuted. Qed.
 Print Assumptions C12_body_at_most_once_refuted.
 
+(* bodies that execute imports of other modules while they run (a tree of import events), whichever of them throw:
+   as long as no event names a module which an enclosing event is loading, a body returns at most once *)
+Theorem C12_nested_body_completes_at_most_once :
+  forall fuel n e s v,
+  noreentry [] e -> exec_nested fuel (init_tstate n) e = (s, v) -> NoDup (t_done s).
+Proof. exact nested_body_completes_at_most_once. Qed.
+Print Assumptions C12_nested_body_completes_at_most_once.
+
 (* known finding D12r: the events of the theorems above are atomic; a body that reaches - through a
    function value it was given, static cycles are rejected by the compiler - an import of the module
    being loaded starts again, returns twice, and the two imports get different objects.  The witness
